@@ -67,7 +67,8 @@ func checkC16(c *Check) {
 	rs := c.Rule("R16.2", "comparators of sorts fed by map order are recognised total orders", 0)
 
 	// ---- pass 1: functions returning a map-ordered slice ----
-	mapOrdered := map[*types.Func]string{} // function -> why
+	mapOrdered := map[*types.Func]string{}   // function -> why
+	mapOrderedKeys := map[*types.Func]bool{} // ... whose result holds the keys of a map (pairwise different elements)
 	var loops []mapLoop
 	L.ForEachFunc(c16Scope, func(fi *FuncInfo) {
 		if strings.HasSuffix(L.Fset.Position(fi.Decl.Pos()).Filename, "/ast/printer.go") {
@@ -390,6 +391,42 @@ func checkC16(c *Check) {
 				}
 			case *ast.ReturnStmt:
 				returned = true
+			case *ast.IndexExpr:
+				// p[i] in a hand-written index loop: selection by identity, `if p[i] == x { return ...p[i]... }`
+				if p.X != ast.Expr(id) || !unique {
+					ok = false
+					return true
+				}
+				okUse := false
+				var is *ast.IfStmt
+				for cur := ast.Node(p); cur != nil; cur = parentOf(callee.Decl.Body, cur) {
+					if x, isIf := cur.(*ast.IfStmt); isIf {
+						is = x
+						break
+					}
+					if _, isFn := cur.(*ast.FuncDecl); isFn {
+						break
+					}
+				}
+				if is != nil && is.Init == nil && is.Else == nil && len(is.Body.List) == 1 {
+					if be, isBin := ast.Unparen(is.Cond).(*ast.BinaryExpr); isBin && be.Op == token.EQL {
+						sameElem := func(e ast.Expr) bool {
+							ix, isIx := ast.Unparen(e).(*ast.IndexExpr)
+							if !isIx {
+								return false
+							}
+							xid, isId := ast.Unparen(ix.X).(*ast.Ident)
+							return isId && info.Uses[xid] == param
+						}
+						_, isRet := is.Body.List[0].(*ast.ReturnStmt)
+						if isRet && (sameElem(be.X) != sameElem(be.Y)) {
+							okUse = true
+						}
+					}
+				}
+				if !okUse {
+					ok = false
+				}
 			default:
 				ok = false
 			}
@@ -512,6 +549,27 @@ func checkC16(c *Check) {
 				rs.Bad(q+"|sort "+obj.Name(), pos, "slice filled in map order is sorted by a comparator that is not a recognised total order ("+why+"): the map's iteration order survives the sort")
 			case returned(ml, obj):
 				mapOrdered[ml.fi.Obj] = "returns " + obj.Name() + ", filled in map order"
+				// the slice holds the map's keys (pairwise different) when every append inside the loop adds the range key
+				if kid, ok := ml.stmt.Key.(*ast.Ident); ok && isMapType(ml.fi.Pkg.TypesInfo.TypeOf(ml.stmt.X)) {
+					kobj := ml.fi.Pkg.TypesInfo.Defs[kid]
+					onlyKeys, any := true, false
+					ast.Inspect(ml.stmt.Body, func(n ast.Node) bool {
+						if call, ok := n.(*ast.CallExpr); ok {
+							if id, ok := ast.Unparen(call.Fun).(*ast.Ident); ok && id.Name == "append" && len(call.Args) >= 2 {
+								any = true
+								for _, a := range call.Args[1:] {
+									if aid, ok := ast.Unparen(a).(*ast.Ident); !ok || ml.fi.Pkg.TypesInfo.Uses[aid] != kobj {
+										onlyKeys = false
+									}
+								}
+							}
+						}
+						return true
+					})
+					if any && onlyKeys && kobj != nil {
+						mapOrderedKeys[ml.fi.Obj] = true
+					}
+				}
 			default:
 				kinds = append(kinds, "slice "+obj.Name()+" filled in iteration order and used unsorted")
 			}
@@ -595,6 +653,9 @@ func checkC16(c *Check) {
 				return true
 			}
 			uniqueSrc := strings.HasSuffix(src, "maps.Keys") // the keys of a map are pairwise different
+			if fn := Callee(info, call); fn != nil && mapOrderedKeys[fn] {
+				uniqueSrc = true
+			}
 			// how is the result consumed?
 			parent := parentOf(fi.Decl.Body, call)
 			switch p := parent.(type) {
